@@ -54,9 +54,10 @@ class SoftmaxBranchThenHead(nn.Module):
     def __init__(self):
         super().__init__()
         self.q, self.head = nn.Linear(D, D), nn.Linear(D, D)
+        self.sm = nn.Softmax(dim=-1)  # the torch.nn wrapper passes `_stacklevel` to F.softmax
 
     def forward(self, x):
-        h = F.softmax(self.q(x), dim=-1) + x
+        h = self.sm(self.q(x)) + x
         return self.head(torch.tanh(h)) + 1.5
 
     def by_hand(self, x):
